@@ -1,4 +1,5 @@
 import JSL.Inv.Feasible
+import JSL.Inv.TimeStep
 import JSL.Lib.StepSpec
 
 /-!
@@ -80,19 +81,28 @@ structure ResInv (orc : Oracle) (inst : Instance) (cfg : SMConfig) (s0 : State) 
   sched : ∃ t, SchedInv { res.state with time := t }
   subs : ∀ σ ∈ res.subStates, StructInv inst σ ∧ SchedInv σ
   live : res.possible ≠ [] → OccursA orc inst cfg s0 res.state ∧ (∀ tr ∈ res.possible, OfferShaped tr)
+  /-- while there are offers, nothing is due -/
+  quiet : res.possible ≠ [] → Quiet inst res.state
 
 theorem smStep_resInv {cfg : SMConfig} {s0 s : State} (hst : Start orc inst s0) (h : OccursA orc inst cfg s0 s)
     {a : Action} (ha : Admissible a) {fuel : Nat} {r r' : Rng} {res : SMResult} {mic : List State}
     (hstep : smStep orc inst cfg fuel s r a = .ok (res, r', mic)) :
     ResInv orc inst cfg s0 res ∧ ∀ σ ∈ mic, StructInv inst σ ∧ SchedInv σ := by
   obtain ⟨hI, hS⟩ := final_inv hst h ha hstep
-  refine ⟨⟨hI, hS, fun σ hσ => (occursA_inv hst (OccursA.sub h ha hstep hσ)).2, ?_⟩,
+  refine ⟨⟨hI, hS, fun σ hσ => (occursA_inv hst (OccursA.sub h ha hstep hσ)).2, ?_, ?_⟩,
     fun σ hσ => (occursA_inv hst (OccursA.micro h ha hstep hσ)).2⟩
-  intro hne
-  rcases (smStep_spec hstep).2 with h1 | h1 | h1
-  · exact absurd h1.2.2.2 hne
-  · exact absurd h1.2.2.1 hne
-  · exact ⟨OccursA.result h ha hstep h1.2.1, offers_offerShaped h1.2.2.2⟩
+  · intro hne
+    rcases (smStep_spec hstep).2 with h1 | h1 | h1
+    · exact absurd h1.2.2.2 hne
+    · exact absurd h1.2.2.1 hne
+    · exact ⟨OccursA.result h ha hstep h1.2.1, offers_offerShaped h1.2.2.2⟩
+  · intro hne
+    obtain ⟨w, hI0, hS0⟩ := occursA_inv hst h
+    have nn := nonnegB_sound hst.samples hst.nonneg
+    rcases (smStep_spec hstep).2 with h1 | h1 | h1
+    · exact absurd h1.2.2.2 hne
+    · exact absurd h1.2.2.1 hne
+    · exact (smStep_clock w nn hI0 hS0 ha hstep).2.2.2.1 h1.1 h1.2.1
 
 theorem admissible_noOp : Admissible noOpAction := ⟨fun _ h => by simp [noOpAction] at h, by simp [noOpAction]⟩
 
@@ -122,10 +132,12 @@ theorem envStep_inv {ec : EnvCfg} {st : RewardStatic} {s0 : State} (hst : Start 
       rcases mwStep_cases hm with ⟨o, o', rest, _, hp, e1, e2, e3, _, _, e6, _⟩ | ⟨act, hsub, hk, hs⟩
       · simp only at e1 e2 e3 e6
         have hl := hi.live (by rw [hp]; simp)
-        refine ⟨⟨by rw [e1]; exact hi.struct, by rw [e1]; exact hi.sched, by rw [e2]; exact hi.subs, ?_⟩, ?_⟩
+        refine ⟨⟨by rw [e1]; exact hi.struct, by rw [e1]; exact hi.sched, by rw [e2]; exact hi.subs, ?_, ?_⟩, ?_⟩
         · intro _
           rw [e1, e3]
           exact ⟨hl.1, fun tr htr => hl.2 tr (by rw [hp]; exact List.mem_cons_of_mem _ htr)⟩
+        · intro _
+          rw [e1]; exact hi.quiet (by rw [hp]; simp)
         · rw [e6]; intro σ hσ; cases hσ
       · have hne : e.res.possible ≠ [] := by
           rcases hk with ⟨_, _, _, h⟩ | ⟨_, _, _, h⟩
